@@ -62,6 +62,14 @@ def check(ctx):
                              "guards": set(), "model_agrees": True, "replay_how": "oq3-run tree / lex"})
         if fa.get("cl") == "none" and fa.get("clerrors", "").count(",") + 1 != len([x for x in fb["errors"].split(",") if x]):
             failures.append({"case": ln, "check": "check_lex_errors_are_lexical", "detail": {"text": t}, "guards": set(), "model_agrees": True})
+        if fa.get("cl") == "none":
+            # the always-parse entry point reports every lexical diagnostic too (same range, same message)
+            full = fa.get("errors", "").split(",")
+            missing = [e for e in fa.get("clerrors", "").split(",") if e and full.count(e) < fa["clerrors"].split(",").count(e)]
+            if missing:
+                failures.append({"case": ln, "check": "full_parse_keeps_lexical_diagnostics",
+                                 "detail": {"text": t, "lexical": fa.get("clerrors", "")[:300], "full_parse": fa.get("errors", "")[:300], "missing": missing[:3]},
+                                 "guards": set(), "model_agrees": True, "replay_how": "echo '<input>' | /verif/harness/target/debug/oq3-run tree   (fields errors= and clerrors=)"})
         any_syntax = fa.get("clerrors", "") != ""
         if PL.canon_panic(c):
             continue
@@ -99,6 +107,8 @@ def check(ctx):
                              "detail": {"files": c["files"], "main": c["main"], "diagnostic_expected_somewhere": e, "result": o[:300]},
                              "guards": set(), "model_agrees": True,
                              "replay_how": "echo '<case json>' | /verif/harness/target/debug/oq3-run include"})
+    from . import incwrap as IW
+    IW.through_entry_points(ctx, "C11", progs + texts[:2000], failures)
     failures.sort(key=lambda f: len(f["case"]))
     C.decide(ctx, failures, C.load_findings("C11"))
     ctx.coverage.update({
